@@ -51,16 +51,6 @@ theorem rawText_flushed (raws : List Str) (sub : Str) (acc : List El) :
   · rename_i h; simp at h; simp [h]
   · rw [rawText_reverse_cons]; rfl
 
-theorem noBond_flushed (sub : Str) (acc : List El) (h : ∀ e ∈ acc, e.isBond = false) :
-    ∀ e ∈ flushed sub acc, e.isBond = false := by
-  unfold flushed
-  split
-  · exact h
-  · intro e he
-    rcases List.mem_cons.1 he with rfl | he
-    · rfl
-    · exact h e he
-
 theorem scan_lossless (valid : Str → Bool) (raws : List Str) :
     ∀ (f : Nat) (text sub : Str) (acc els : List El), scan valid f text sub acc = .ok els →
       rawText raws els = rawText raws acc.reverse ++ sub ++ text := by
@@ -112,26 +102,39 @@ theorem scan_lossless (valid : Str → Bool) (raws : List Str) :
           rw [rawText_flushed]; simp [elRaw]
         · exact one c (c2 :: rest) h
 
-theorem scan_noBond (valid : Str → Bool) :
+theorem all_flushed (P : El → Prop) (hstr : ∀ s : Str, s ≠ [] → P (.str s)) (sub : Str) (acc : List El) (h : ∀ e ∈ acc, P e) :
+    ∀ e ∈ flushed sub acc, P e := by
+  unfold flushed
+  split
+  · exact h
+  · rename_i hne
+    intro e he
+    rcases List.mem_cons.1 he with rfl | he
+    · exact hstr sub (by intro h0; rw [h0] at hne; simp at hne)
+    · exact h e he
+
+/-- whatever holds of every atom element with a non-empty text and of every run element with a non-empty text holds of
+    every element the first loop produces -/
+theorem scan_all (valid : Str → Bool) (P : El → Prop) (hatom : ∀ a : Str, a ≠ [] → P (.atom a)) (hstr : ∀ s : Str, s ≠ [] → P (.str s)) :
     ∀ (f : Nat) (text sub : Str) (acc els : List El), scan valid f text sub acc = .ok els →
-      (∀ e ∈ acc, e.isBond = false) → ∀ e ∈ els, e.isBond = false := by
+      (∀ e ∈ acc, P e) → ∀ e ∈ els, P e := by
   intro f
   induction f with
   | zero => intro text sub acc els h; simp [scan] at h
   | succ f ih =>
     intro text sub acc els h hacc
-    have hfl := noBond_flushed sub acc hacc
-    have hcons : ∀ a : Str, ∀ e ∈ El.atom a :: flushed sub acc, e.isBond = false := by
-      intro a e he
+    have hfl := all_flushed P hstr sub acc hacc
+    have hcons : ∀ a : Str, a ≠ [] → ∀ e ∈ El.atom a :: flushed sub acc, P e := by
+      intro a ha e he
       rcases List.mem_cons.1 he with rfl | he
-      · rfl
+      · exact hatom a ha
       · exact hfl e he
     have one : ∀ (c : Char) (cs : Str), scan.scanOne valid f c cs sub acc (flushed sub acc) = .ok els →
-        ∀ e ∈ els, e.isBond = false := by
+        ∀ e ∈ els, P e := by
       intro c cs h1
       unfold scan.scanOne at h1
       split at h1
-      · exact ih _ _ _ _ h1 (hcons _)
+      · exact ih _ _ _ _ h1 (hcons _ (by simp))
       · split at h1
         · split at h1
           · simp at h1
@@ -139,7 +142,7 @@ theorem scan_noBond (valid : Str → Bool) :
             split at h1
             · exact ih _ _ _ _ h1 hacc
             · split at h1
-              · exact ih _ _ _ _ h1 (hcons _)
+              · exact ih _ _ _ _ h1 (hcons _ (by simp))
               · simp at h1
         · exact ih _ _ _ _ h1 hacc
     cases text with
@@ -158,8 +161,16 @@ theorem scan_noBond (valid : Str → Bool) :
       | cons c2 rest =>
         simp only [scan] at h
         split at h
-        · exact ih _ _ _ _ h (hcons _)
+        · exact ih _ _ _ _ h (hcons _ (by simp))
         · exact one c (c2 :: rest) h
+
+theorem scan_noBond (valid : Str → Bool) (f : Nat) (text sub : Str) (acc els : List El)
+    (h : scan valid f text sub acc = .ok els) (hacc : ∀ e ∈ acc, e.isBond = false) : ∀ e ∈ els, e.isBond = false :=
+  scan_all valid (fun e => e.isBond = false) (fun _ _ => rfl) (fun _ _ => rfl) f text sub acc els h hacc
+
+theorem scan_nonempty (valid : Str → Bool) (raws : List Str) (f : Nat) (text sub : Str) (acc els : List El)
+    (h : scan valid f text sub acc = .ok els) (hacc : ∀ e ∈ acc, elRaw raws e ≠ []) : ∀ e ∈ els, elRaw raws e ≠ [] :=
+  scan_all valid (fun e => elRaw raws e ≠ []) (fun _ ha => ha) (fun _ hs => hs) f text sub acc els h hacc
 
 /-! ## slicing a run around a descriptor -/
 
@@ -206,6 +217,8 @@ structure BindInv (offset : Nat) (T : Str) (s : BindSt) (raws : List Str) : Prop
   parsed : ∀ k r, raws[k]? = some r → ∃ pre atom pd, parseDesc r (k + offset) pre atom = .ok pd ∧ s.descs[k]? = some pd
   /-- the atoms met so far, in written order -/
   atoms : s.atoms = (s.els.take s.ec).filterMap El.atom?
+  /-- no element is empty: there are at most as many elements as characters -/
+  nonempty : ∀ e ∈ s.els, elRaw raws e ≠ []
 
 theorem elRaw_ext (raws : List Str) (x : Str) (e : El) (h : ∀ k, e = El.bond k → k < raws.length) :
     elRaw (raws ++ [x]) e = elRaw raws e := by
@@ -274,6 +287,132 @@ theorem BindInv.skip {offset : Nat} {T : Str} {s : BindSt} {raws : List Str} (h 
   atoms := by
     show s.atoms = (s.els.take (s.ec + 1)).filterMap El.atom?
     rw [filterMap_take_succ _ _ _ hx, hna, h.atoms]; simp
+  nonempty := h.nonempty
+
+/-- cutting one descriptor out of the run under the cursor keeps the invariant (with the cut text appended to the raw texts) -/
+theorem BindInv.cut {offset : Nat} {T : Str} {s : BindSt} {raws : List Str} (inv : BindInv offset T s raws)
+    (e : Str) (hel : s.els[s.ec]? = some (El.str e)) (hOpen : ¬ find e ['['] < 0) (hClose : ¬ find e [']'] ≤ 0)
+    (pre : Str) (atomTo : Option Nat) (pd : PDesc)
+    (hpd : parseDesc (slice e (some (find e ['['])) (some (find e [']'] + 1))) (s.descs.length + offset) pre atomTo = .ok pd)
+    (st : List Int) :
+    BindInv offset T
+      { s with els := s.els.take s.ec ++
+                 ((if (slice e none (some (find e ['[']))).isEmpty then [] else [El.str (slice e none (some (find e ['['])))]) ++
+                   [El.bond s.descs.length] ++
+                   (if (slice e (some (find e [']'] + 1)) none).isEmpty then [] else [El.str (slice e (some (find e [']'] + 1)) none)])) ++
+                 s.els.drop (s.ec + 1),
+               ec := s.ec + 1, stack := st, descs := s.descs ++ [pd] }
+      (raws ++ [slice e (some (find e ['['])) (some (find e [']'] + 1))]) := by
+  have hO : 0 ≤ find e ['['] := by omega
+  have hC : 0 ≤ find e [']'] + 1 := by omega
+  have hne : slice e (some (find e ['['])) (some (find e [']'] + 1)) ≠ [] := by
+    intro hnil; rw [hnil] at hpd; exact parseDesc_ne_nil hpd
+  have h3 := slice_three e _ _ hO hC hne
+  have hsplit := split_at _ _ _ hel
+  have hec : s.ec ≤ s.els.length := by
+    rcases Nat.lt_or_ge s.ec s.els.length with h' | h'
+    · exact Nat.le_of_lt h'
+    · rw [List.getElem?_eq_none h'] at hel; cases hel
+  have hbT : ∀ k, El.bond k ∈ s.els.take s.ec → k < raws.length := fun k hk =>
+    inv.len ▸ inv.bonds k (List.mem_of_mem_take hk)
+  have hbD : ∀ k, El.bond k ∈ s.els.drop (s.ec + 1) → k < raws.length := fun k hk =>
+    inv.len ▸ inv.bonds k (List.mem_of_mem_drop hk)
+  generalize hA : slice e none (some (find e ['['])) = elA at *
+  generalize hB : slice e (some (find e ['['])) (some (find e [']'] + 1)) = bt at *
+  generalize hBB : slice e (some (find e [']'] + 1)) none = elB at *
+  have hmidText : rawText (raws ++ [bt])
+      ((if elA.isEmpty then [] else [El.str elA]) ++ [El.bond s.descs.length] ++
+        (if elB.isEmpty then [] else [El.str elB])) = e := by
+    have hb : elRaw (raws ++ [bt]) (El.bond s.descs.length) = bt := by
+      simp [elRaw, ← inv.len]
+    rw [rawText_append, rawText_append, rawText_cons, hb, rawText_nil, ← h3]
+    have hAe : rawText (raws ++ [bt]) (if elA.isEmpty then [] else [El.str elA]) = elA := by
+      split
+      · rename_i hh; simp at hh; simp [hh, rawText]
+      · simp [rawText, elRaw]
+    have hBe : rawText (raws ++ [bt]) (if elB.isEmpty then [] else [El.str elB]) = elB := by
+      split
+      · rename_i hh; simp at hh; simp [hh, rawText]
+      · simp [rawText, elRaw]
+    rw [hAe, hBe]; simp
+  exact {
+    len := by simp [inv.len]
+    text := by
+      show rawText (raws ++ [bt]) (s.els.take s.ec ++ _ ++ s.els.drop (s.ec + 1)) = T
+      rw [rawText_append, rawText_append, hmidText, rawText_ext _ _ _ hbT, rawText_ext _ _ _ hbD,
+        ← inv.text]
+      conv => rhs; rw [hsplit]
+      rw [rawText_append, rawText_cons]; simp [elRaw]
+    bonds := by
+      intro k hk
+      show k < (s.descs ++ [pd]).length
+      simp only [List.length_append, List.length_singleton]
+      have hk' : El.bond k ∈ s.els.take s.ec ++
+          ((if elA.isEmpty then [] else [El.str elA]) ++ [El.bond s.descs.length] ++
+            (if elB.isEmpty then [] else [El.str elB])) ++ s.els.drop (s.ec + 1) := hk
+      rcases List.mem_append.1 hk' with hk1 | hk1
+      · rcases List.mem_append.1 hk1 with hk2 | hk2
+        · have := hbT k hk2; rw [inv.len] at this; omega
+        · rcases List.mem_append.1 hk2 with hk3 | hk3
+          · rcases List.mem_append.1 hk3 with hk4 | hk4
+            · split at hk4 <;> simp at hk4
+            · simp at hk4; omega
+          · split at hk3 <;> simp at hk3
+      · have := hbD k hk1; rw [inv.len] at this; omega
+    parsed := by
+      intro k r hr
+      rcases Nat.lt_or_ge k raws.length with hk | hk
+      · rw [List.getElem?_append_left hk] at hr
+        obtain ⟨pre, atom, pd', h1, h2⟩ := inv.parsed k r hr
+        refine ⟨pre, atom, pd', h1, ?_⟩
+        show (s.descs ++ [pd])[k]? = some pd'
+        rw [List.getElem?_append_left (inv.len ▸ hk)]; exact h2
+      · rw [List.getElem?_append_right hk] at hr
+        have hk0 : k - raws.length = 0 := by
+          rcases Nat.eq_zero_or_pos (k - raws.length) with h0 | h0
+          · exact h0
+          · rw [List.getElem?_eq_none (by simp; omega)] at hr; cases hr
+        rw [hk0] at hr
+        have hkeq : k = s.descs.length := by rw [← inv.len]; omega
+        simp at hr
+        subst hr
+        refine ⟨_, _, pd, hkeq ▸ hpd, ?_⟩
+        show (s.descs ++ [pd])[k]? = some pd
+        rw [hkeq]; simp
+    atoms := by
+      show s.atoms = ((s.els.take s.ec ++ _ ++ s.els.drop (s.ec + 1)).take (s.ec + 1)).filterMap El.atom?
+      by_cases hAE : elA.isEmpty
+      · simp only [hAE, if_true, List.nil_append, List.singleton_append]
+        rw [take_succ_splice _ _ _ _ hec, List.filterMap_append, ← inv.atoms]; simp [El.atom?]
+      · simp only [hAE, Bool.false_eq_true, if_false, List.cons_append, List.nil_append]
+        rw [take_succ_splice _ _ _ _ hec, List.filterMap_append, ← inv.atoms]; simp [El.atom?]
+    nonempty := by
+      intro x hx
+      have hx' : x ∈ s.els.take s.ec ++
+          ((if elA.isEmpty then [] else [El.str elA]) ++ [El.bond s.descs.length] ++
+            (if elB.isEmpty then [] else [El.str elB])) ++ s.els.drop (s.ec + 1) := hx
+      have hold : ∀ y ∈ s.els, elRaw (raws ++ [bt]) y ≠ [] := by
+        intro y hy
+        rw [elRaw_ext raws bt y (fun k hk => inv.len ▸ inv.bonds k (hk ▸ hy))]
+        exact inv.nonempty y hy
+      rcases List.mem_append.1 hx' with hx1 | hx1
+      · rcases List.mem_append.1 hx1 with hx2 | hx2
+        · exact hold x (List.mem_of_mem_take hx2)
+        · rcases List.mem_append.1 hx2 with hx3 | hx3
+          · rcases List.mem_append.1 hx3 with hx4 | hx4
+            · split at hx4
+              · simp at hx4
+              · rename_i hne'
+                simp at hx4; subst hx4
+                simpa [elRaw] using hne'
+            · simp at hx4; subst hx4
+              simpa [elRaw, ← inv.len] using hne
+          · split at hx3
+            · simp at hx3
+            · rename_i hne'
+              simp at hx3; subst hx3
+              simpa [elRaw] using hne'
+      · exact hold x (List.mem_of_mem_drop hx1) }
 
 theorem bind_lossless (offset : Nat) (T : Str) :
     ∀ (f : Nat) (s s' : BindSt) (raws : List Str), bind offset f s = .ok s' → BindInv offset T s raws →
@@ -301,7 +440,8 @@ theorem bind_lossless (offset : Nat) (T : Str) :
           len := inv.len, text := inv.text, bonds := inv.bonds, parsed := inv.parsed
           atoms := by
             show s.atoms ++ [t] = (s.els.take (s.ec + 1)).filterMap El.atom?
-            rw [filterMap_take_succ _ _ _ hel, inv.atoms]; rfl }
+            rw [filterMap_take_succ _ _ _ hel, inv.atoms]; rfl
+          nonempty := inv.nonempty }
       · cases h
     · -- a descriptor element (never met: they are only inserted behind the cursor)
       rename_i k hel
@@ -328,90 +468,7 @@ theorem bind_lossless (offset : Nat) (T : Str) :
                 · split at h
                   · cases h
                   · rename_i pd hpd
-                    have hO : 0 ≤ find e ['['] := by omega
-                    have hC : 0 ≤ find e [']'] + 1 := by omega
-                    have hne : slice e (some (find e ['['])) (some (find e [']'] + 1)) ≠ [] := by
-                      intro hnil; rw [hnil] at hpd; exact parseDesc_ne_nil hpd
-                    have h3 := slice_three e _ _ hO hC hne
-                    have hsplit := split_at _ _ _ hel
-                    have hec : s.ec ≤ s.els.length := by
-                      rcases Nat.lt_or_ge s.ec s.els.length with h' | h'
-                      · exact Nat.le_of_lt h'
-                      · rw [List.getElem?_eq_none h'] at hel; cases hel
-                    refine ih _ _ (raws ++ [slice e (some (find e ['['])) (some (find e [']'] + 1))]) h ?_
-                    have hbT : ∀ k, El.bond k ∈ s.els.take s.ec → k < raws.length := fun k hk =>
-                      inv.len ▸ inv.bonds k (List.mem_of_mem_take hk)
-                    have hbD : ∀ k, El.bond k ∈ s.els.drop (s.ec + 1) → k < raws.length := fun k hk =>
-                      inv.len ▸ inv.bonds k (List.mem_of_mem_drop hk)
-                    generalize hA : slice e none (some (find e ['['])) = elA at *
-                    generalize hB : slice e (some (find e ['['])) (some (find e [']'] + 1)) = bt at *
-                    generalize hBB : slice e (some (find e [']'] + 1)) none = elB at *
-                    have hmidText : rawText (raws ++ [bt])
-                        ((if elA.isEmpty then [] else [El.str elA]) ++ [El.bond s.descs.length] ++
-                          (if elB.isEmpty then [] else [El.str elB])) = e := by
-                      have hb : elRaw (raws ++ [bt]) (El.bond s.descs.length) = bt := by
-                        simp [elRaw, ← inv.len]
-                      rw [rawText_append, rawText_append, rawText_cons, hb, rawText_nil, ← h3]
-                      have hAe : rawText (raws ++ [bt]) (if elA.isEmpty then [] else [El.str elA]) = elA := by
-                        split
-                        · rename_i hh; simp at hh; simp [hh, rawText]
-                        · simp [rawText, elRaw]
-                      have hBe : rawText (raws ++ [bt]) (if elB.isEmpty then [] else [El.str elB]) = elB := by
-                        split
-                        · rename_i hh; simp at hh; simp [hh, rawText]
-                        · simp [rawText, elRaw]
-                      rw [hAe, hBe]; simp
-                    exact {
-                      len := by simp [inv.len]
-                      text := by
-                        show rawText (raws ++ [bt]) (s.els.take s.ec ++ _ ++ s.els.drop (s.ec + 1)) = T
-                        rw [rawText_append, rawText_append, hmidText, rawText_ext _ _ _ hbT, rawText_ext _ _ _ hbD,
-                          ← inv.text]
-                        conv => rhs; rw [hsplit]
-                        rw [rawText_append, rawText_cons]; simp [elRaw]
-                      bonds := by
-                        intro k hk
-                        show k < (s.descs ++ [pd]).length
-                        simp only [List.length_append, List.length_singleton]
-                        have hk' : El.bond k ∈ s.els.take s.ec ++
-                            ((if elA.isEmpty then [] else [El.str elA]) ++ [El.bond s.descs.length] ++
-                              (if elB.isEmpty then [] else [El.str elB])) ++ s.els.drop (s.ec + 1) := hk
-                        rcases List.mem_append.1 hk' with hk1 | hk1
-                        · rcases List.mem_append.1 hk1 with hk2 | hk2
-                          · have := hbT k hk2; rw [inv.len] at this; omega
-                          · rcases List.mem_append.1 hk2 with hk3 | hk3
-                            · rcases List.mem_append.1 hk3 with hk4 | hk4
-                              · split at hk4 <;> simp at hk4
-                              · simp at hk4; omega
-                            · split at hk3 <;> simp at hk3
-                        · have := hbD k hk1; rw [inv.len] at this; omega
-                      parsed := by
-                        intro k r hr
-                        rcases Nat.lt_or_ge k raws.length with hk | hk
-                        · rw [List.getElem?_append_left hk] at hr
-                          obtain ⟨pre, atom, pd', h1, h2⟩ := inv.parsed k r hr
-                          refine ⟨pre, atom, pd', h1, ?_⟩
-                          show (s.descs ++ [pd])[k]? = some pd'
-                          rw [List.getElem?_append_left (inv.len ▸ hk)]; exact h2
-                        · rw [List.getElem?_append_right hk] at hr
-                          have hk0 : k - raws.length = 0 := by
-                            rcases Nat.eq_zero_or_pos (k - raws.length) with h0 | h0
-                            · exact h0
-                            · rw [List.getElem?_eq_none (by simp; omega)] at hr; cases hr
-                          rw [hk0] at hr
-                          have hkeq : k = s.descs.length := by rw [← inv.len]; omega
-                          simp at hr
-                          subst hr
-                          refine ⟨_, _, pd, hkeq ▸ hpd, ?_⟩
-                          show (s.descs ++ [pd])[k]? = some pd
-                          rw [hkeq]; simp
-                      atoms := by
-                        show s.atoms = ((s.els.take s.ec ++ _ ++ s.els.drop (s.ec + 1)).take (s.ec + 1)).filterMap El.atom?
-                        by_cases hAE : elA.isEmpty
-                        · simp only [hAE, if_true, List.nil_append, List.singleton_append]
-                          rw [take_succ_splice _ _ _ _ hec, List.filterMap_append, ← inv.atoms]; simp [El.atom?]
-                        · simp only [hAE, Bool.false_eq_true, if_false, List.cons_append, List.nil_append]
-                          rw [take_succ_splice _ _ _ _ hec, List.filterMap_append, ← inv.atoms]; simp [El.atom?] }
+                    exact ih _ _ _ h (inv.cut e hel hOpen hClose _ _ pd hpd st)
       · -- without
         split at h
         · cases h
@@ -445,7 +502,8 @@ theorem parseToken_lossless (valid : Str → Bool) (text : Str) (offset resId : 
             have := hnb _ hk
             simp [El.isBond] at this
           parsed := by intro k r hr; simp at hr
-          atoms := rfl }
+          atoms := rfl
+          nonempty := scan_nonempty valid [] _ _ _ _ _ hscan (by simp) }
         obtain ⟨raws, inv, hend⟩ := bind_lossless offset (strip text) _ _ _ _ hbind inv0
         refine ⟨raws, inv.len, inv.text, inv.parsed, ?_⟩
         have := inv.atoms
